@@ -38,7 +38,7 @@ def run(ctx):
     if p.returncode != 0:
         res.violation("chain of depth 300: %s" % (common.crash_head(p.stderr) or (p.stdout + p.stderr)[-300:]), None, None)
     n = 3000                        # per process; rapidcheck slows down super-linearly, so many short runs
-    jobs = common.NCPU * ctx.pick(6, 300)
+    jobs = common.NCPU * ctx.pick(6, 60)
     work = os.path.join(common.ROOT, "work", "c18-%d" % os.getpid())
     os.makedirs(work, exist_ok=True)
 
